@@ -27,6 +27,14 @@ Theorem C09_no_lock_left_held : leaked_locks = [].
 Proof. reflexivity. Qed.
 Print Assumptions C09_no_lock_left_held.
 
+(* locks are nested in one global order: the translator lists every pair (lock held, lock taken while it is held) of the
+   analysed program and proposes a ranking; the ranking is checked here against every pair, and a checked ranking rules
+   out every cycle of nested acquisitions (no circular wait: goroutines that take their locks in a common order cannot
+   deadlock on them) *)
+Theorem C09_lock_order_acyclic : forall a, ~ nested lock_order a a.
+Proof. apply (lock_order_acyclic lock_rank). vm_compute. reflexivity. Qed.
+Print Assumptions C09_lock_order_acyclic.
+
 (* the translated oxy program has no data race, in any interleaving of any number of goroutines *)
 Theorem C09_race_free : forall tr, wf tr -> respects accesses tr ->
   forall i j t1 t2 inst s1 s2,
